@@ -86,7 +86,26 @@ func Harness_C20_ops() {
 	// from here on the node is "running": the routing table's local endpoint
 	// counters may only be changed under the registry mutex (lock recorder rule)
 	v.Tag("serialised")
-	switch v.Choose("op", 17) {
+	switch v.Choose("op", 18) {
+	case 17: // remote-endpoint subscribers run without the routing table's
+		// lock, so a subscriber may read the table it is told about (the
+		// update and the removal path each notify on their own)
+		calls := 0
+		n.cs.OnRemoteEndpointUpdate(func(nodeID string, endpointID string) {
+			calls++
+			v.Assert("C20/subscriber-called-without-table-lock", v.HeldLocks() == 0)
+			_, _ = n.cs.LookupEndpoint(endpointID)
+			_, _ = n.cs.Node(nodeID)
+		})
+		want := 0
+		if n.cs.UpdateRemoteEndpoint("r", "e0", v.Int("listeners", 1, 9)) {
+			want++
+		}
+		if n.cs.RemoveRemoteEndpoint("r", "e0") {
+			want++
+		}
+		v.Assert("C20/subscriber-notified", calls == want)
+		v.Cover("reentrant-subscriber")
 	case 16: // upstream server session bookkeeping (handlers, rebalance task, status reads)
 		srv := &Server{sessions: map[*yamux.Session]struct{}{}, cluster: n.cs, logger: log.NewNopLogger()}
 		s1, s2 := &yamux.Session{}, &yamux.Session{}
